@@ -37,6 +37,12 @@ theorem mem_ratios {tol : K} {T : Tab K} {h : Nat} {p : Nat × K} (hp : p ∈ ra
     exact ⟨hi, by rw [hrow]; simpa using hcond, by simp [hrow]⟩
   · cases hf
 
+/-- the scan step of `find_t` (either shape of the source) keeps the best so far or takes the candidate. -/
+theorem selRatio_choice (tol : K) (basis prefer : List Nat) (a b : Nat × K) :
+    selRatio tol basis prefer a b = a ∨ selRatio tol basis prefer a b = b := by
+  unfold selRatio
+  split_ifs <;> simp
+
 /-- **what `find_t` returns is a candidate row**: in range, pivot element `float_gt 0`, with its ratio. -/
 theorem findT_spec {tol : K} {T : Tab K} {h : Nat} {prefer : List Nat} {t : Nat} {ratio : K}
     (hf : findT tol T h prefer = some (t, ratio)) :
@@ -46,12 +52,7 @@ theorem findT_spec {tol : K} {T : Tab K} {h : Nat} {prefer : List Nat} {t : Nat}
   · cases hf
   · rename_i first rest hr
     simp only [Option.some.injEq] at hf
-    have hsel := foldl_select_mem (fun (mn : Nat × K) (ir : Nat × K) =>
-      if Tol.feq tol ir.2 mn.2 then
-        if T.basis.getD ir.1 0 < T.basis.getD mn.1 0 ||
-            (prefer.contains (T.basis.getD ir.1 0) && !(prefer.contains (T.basis.getD mn.1 0))) then ir else mn
-      else if Tol.flt tol ir.2 mn.2 then ir else mn)
-      (by intro a b; split <;> [split; split] <;> simp) rest first
+    have hsel := foldl_select_mem (selRatio tol T.basis prefer) (selRatio_choice tol T.basis prefer) rest first
     have hmem : (t, ratio) ∈ ratios tol T h := by
       rw [hr]
       rcases hsel with e | e
